@@ -180,6 +180,8 @@ func (a *AggregatePlan) prepare(ctx *ExecuteCtx) error {
 		if k == nil && v == nil && err == nil {
 			break
 		}
+		// The field cache holds the values of the previous pair
+		ctx.Clear()
 		aggrKey, err := a.getAggrKey(k, v, ctx)
 		if err != nil {
 			return err
@@ -218,6 +220,8 @@ func (a *AggregatePlan) prepareBatch(ctx *ExecuteCtx) error {
 		}
 
 		for i, aggrKey := range aggrKeys {
+			// The field cache holds the values of the previous pair
+			ctx.Clear()
 			row, have := a.aggrMap[aggrKey]
 			if !have {
 				row, err = a.createAggrRow(kvps[i], ctx)
